@@ -136,7 +136,7 @@ pub fn case_strat(max_m_kib: usize) -> impl Strategy<Value = Case> {
 }
 
 pub fn run(ctx: &mut Ctx) -> Result<(), Violation> {
-    ctx.rule = "Enumerated: every output length 16..=160 (one parameter set each), every memory size 8..=64 KiB (non-multiples of 4 included) x t in 1..=3 x {argon2i, argon2id}, password lengths 0..=300 stepped, salt lengths 8..=64; larger {100,255,256,1023,1024,4096 KiB}; out-of-range table (outlen 0..=15, salt 0..=7, ops 0 and 2^32, mem < 8192 and > max) which must Err without allocating; plus proptest-random (alg, outlen<=1100, pwlen<=300, salt 8..=64, t 1..=6, m, sub-KiB remainder) with shrinking. Oracle: libsodium's internal argon2{i,id}_hash_raw for every accepted set (cross-checked against the public crypto_pwhash for 16-byte salts), RFC 9106 pure-Python implementation on a sample in the thorough tier; PwHash::hash_with_salt/verify accepts the generating password and rejects one-bit / length / empty variants. Non-trivial: outlen != 32, or m not a multiple of 4, or t >= 2, or salt != 16 bytes; distinct = parameter tuple hash.".into();
+    ctx.rule = "Enumerated: every output length 16..=160 (one parameter set each), every memory size 8..=64 KiB (non-multiples of 4 included) x t in 1..=3 x {argon2i, argon2id}, every pass count 4..=40 and 2^k-1..2^k+2 for k=6..10 (2^16 in thorough) at minimal memory, password lengths 0..=300 stepped, salt lengths 8..=64; larger {100,255,256,1023,1024,4096 KiB}; out-of-range table (outlen 0..=15, salt 0..=7, ops 0 and 2^32, mem < 8192 and > max) which must Err without allocating; plus proptest-random (alg, outlen<=1100, pwlen<=300, salt 8..=64, t 1..=6, m, sub-KiB remainder) with shrinking. Oracle: libsodium's internal argon2{i,id}_hash_raw for every accepted set (cross-checked against the public crypto_pwhash for 16-byte salts), RFC 9106 pure-Python implementation on a sample in the thorough tier; PwHash::hash_with_salt/verify accepts the generating password and rejects one-bit / length / empty variants. Non-trivial: outlen != 32, or m not a multiple of 4, or t >= 2, or salt != 16 bytes; distinct = parameter tuple hash.".into();
     ctx.assumptions = vec![
         "libsodium's Argon2 (public and internal entry points, statically linked) is the reference".into(),
         "one lane, version 1.3 only (as the property states)".into(),
@@ -153,6 +153,21 @@ pub fn run(ctx: &mut Ctx) -> Result<(), Violation> {
             for a in 1..=2 {
                 cases.push(Case { alg: a, outlen: 32, password: Hex(f.bytes(m % 20)), salt: Hex(f.bytes(16)), ops: t, mem: m * 1024 + [0usize, 1, 1023][m % 3] });
             }
+        }
+    }
+    // pass counts: every t up to 40 and the neighbourhoods of 2^6..2^10 (2^16 in the thorough tier) at minimal memory
+    // (a pass counter held in a narrower integer wraps there)
+    let mut ts: Vec<u64> = (4..=40).collect();
+    for b in [64u64, 128, 256, 512, 1024] {
+        ts.extend([b - 1, b, b + 1, b + 2]);
+    }
+    if ctx.tier == Tier::Thorough {
+        ts.extend([65535, 65536, 65537]);
+    }
+    for (i, &t) in ts.iter().enumerate() {
+        cases.push(Case { alg: 1 + (i % 2) as i32, outlen: 32, password: Hex(f.bytes(5)), salt: Hex(f.bytes(16)), ops: t, mem: 8192 + [0usize, 1024, 3072][i % 3] });
+        if t >= 255 {
+            cases.push(Case { alg: 2 - (i % 2) as i32, outlen: 32, password: Hex(f.bytes(5)), salt: Hex(f.bytes(16)), ops: t, mem: 8192 });
         }
     }
     for pwlen in (0..=300usize).step_by(ctx.tier.pick(7, 1)) {
